@@ -88,6 +88,7 @@ func ProfileFor(prop string) *Profile {
 		p.W = scale(p.W, map[string]int{OpReload: 10, OpBound: 25, OpUpdAsk: 25, OpBindAsk: 12})
 	case "C03":
 		p.Scenario = 250
+		p.CrossSwap = 200
 		p.Gang = 400
 		p.W = scale(p.W, map[string]int{OpDecom: 16, OpRmApp: 25, OpRelease: 70, OpDupConfirm: 15, OpDropConfirm: 10, OpReconfirm: 12, OpFirePH: 14, OpUpdAsk: 25})
 	case "C04":
@@ -101,6 +102,7 @@ func ProfileFor(prop string) *Profile {
 		p.MaxApps = 7
 	case "C06":
 		p.Scenario = 300
+		p.CrossSwap = 200
 		p.Gang = 850
 		p.W = scale(p.W, map[string]int{OpFirePH: 22, OpFireState: 14, OpDecom: 14, OpRelease: 60, OpDupConfirm: 14, OpReconfirm: 10, OpRmApp: 16, OpBound: 0, OpBindAsk: 0, OpUpdAsk: 0})
 	case "C07", "C08":
@@ -200,6 +202,10 @@ func RunCase(prop string, seed uint64, replayDir string, cmdLog *os.File) (res *
 	if prof.Scenario > 0 && r.Chance(prof.Scenario) {
 		e.scenarioInterruptedSwap(g, r)
 		e.obs("scenario.interrupted_swap", 1)
+	}
+	if prof.CrossSwap > 0 && r.Chance(prof.CrossSwap) {
+		e.scenarioCrossNodeSwap(g, r)
+		e.obs("scenario.cross_node_swap", 1)
 	}
 	steps := r.Range(prof.Steps[0], prof.Steps[1])
 	for i := 0; i < steps && e.Inconclusive == "" && !e.stopNow(); i++ {
@@ -444,5 +450,84 @@ func (e *Engine) scenarioInterruptedSwap(g *Gen, r *Rng) {
 		if r.Chance(800) {
 			acts[i]()
 		}
+	}
+}
+
+// scenarioCrossNodeSwap is a directed prefix: placeholders that only fit one node (they ask for a resource type only
+// that node has), the node is drained, and real asks that are smaller than the placeholder in one type arrive: the
+// replacement has to go to another node with a placeholder that is larger than the real allocation. Then the
+// confirmations, duplicates, releases and node events in a seeded order.
+func (e *Engine) scenarioCrossNodeSwap(g *Gen, r *Rng) {
+	if len(g.M.FifoLeaves) == 0 {
+		return
+	}
+	g.nodeN++
+	nA := fmt.Sprintf("n%d", g.nodeN)
+	g.nodeN++
+	nB := fmt.Sprintf("n%d", g.nodeN)
+	if !e.Do(&Op{Kind: OpAddNode, Node: nA, Res: map[string]int64{"memory": 8, "vcore": 8, "gpu": 4}}) {
+		return
+	}
+	if !e.Do(&Op{Kind: OpAddNode, Node: nB, Res: map[string]int64{"memory": 8, "vcore": 8}}) {
+		return
+	}
+	g.appN++
+	id := fmt.Sprintf("app%d", g.appN)
+	count := r.Range(1, 3)
+	ph := map[string]int64{"memory": 2, "vcore": 2, "gpu": 1}
+	total := map[string]int64{"memory": int64(2 * count), "vcore": int64(2 * count), "gpu": int64(count)}
+	style := []string{"Soft", "Hard"}[r.Intn(2)]
+	ga := &gApp{ID: id, Queue: r.Pick(g.M.FifoLeaves), User: r.Pick(g.M.Users), Gang: true, Style: style, TGs: []*tgInfo{{Name: "tg1", Count: count, Res: ph, PHSent: count}}}
+	g.apps[id] = ga
+	if !e.Do(&Op{Kind: OpAddApp, App: id, Queue: ga.Queue, User: ga.User, PHAsk: total, GangStyle: style}) {
+		return
+	}
+	for i := 0; i < count; i++ {
+		e.Do(&Op{Kind: OpAsk, App: id, Key: g.newKey(id), Res: map[string]int64{"memory": 2, "vcore": 2, "gpu": 1}, Placeholder: true, TaskGroup: "tg1"})
+	}
+	e.Do(&Op{Kind: OpSched, N: count + 2})
+	e.Do(&Op{Kind: OpDrain, Node: nA})
+	var reals []string
+	for i := 0; i < count; i++ {
+		k := g.newKey(id)
+		reals = append(reals, k)
+		size := []map[string]int64{{"memory": 1, "vcore": 2}, {"memory": 2, "vcore": 1}, {"memory": 2, "vcore": 2}, {"memory": 1, "vcore": 1}}[r.Intn(4)]
+		e.Do(&Op{Kind: OpAsk, App: id, Key: k, Res: size, TaskGroup: "tg1"})
+	}
+	ga.TGs[0].RealSent = count
+	e.Do(&Op{Kind: OpSched, N: count + 1})
+	acts := []func(){
+		func() {
+			for i := 0; i < 6 && len(e.C.S.Confirms()) > 0 && !e.stopNow(); i++ {
+				e.Do(&Op{Kind: OpConfirm, Idx: 0})
+			}
+		},
+		func() { e.Do(&Op{Kind: OpUndrain, Node: nA}) },
+		func() { e.Do(&Op{Kind: OpSched, N: 2}) },
+		func() {
+			if op := g.make(OpDupConfirm); op != nil {
+				e.Do(op)
+			}
+		},
+		func() {
+			if r.Chance(300) {
+				e.Do(&Op{Kind: OpRelease, App: id, Key: reals[r.Intn(len(reals))]})
+			}
+		},
+		func() {
+			if r.Chance(200) {
+				e.Do(&Op{Kind: OpDecom, Node: []string{nA, nB}[r.Intn(2)]})
+			}
+		},
+	}
+	order := r.Perm(len(acts))
+	if r.Chance(600) {
+		order = []int{0, 3, 2, 1, 4, 5}
+	}
+	for _, i := range order {
+		if e.stopNow() || e.Inconclusive != "" {
+			return
+		}
+		acts[i]()
 	}
 }
